@@ -26,7 +26,7 @@ claimed = {
  "C17": "Theorems C17_iff (analysis fails exactly on the invalid classes of the property text), C17_write_refused (error, nothing emitted, state unchanged => repeatable), C17_never_ready, C17_accept (everything else: ok or OutputOverflow).",
  "C18": "Theorems C18_fits_chunked (a write of calculate_max_input(n) bytes into n bytes consumes all of it, for every n, through the byte-level writer), C18_sized, C18_le_n, C18_monotone.",
  "C19": "Theorems C19_progress_chunked / C19_more_input / C19_at_least_advertised / C19_progress_sized / C19_terminates for all input and buffer lengths.",
- "C20": "Response side: C20_resp_exact, C20_resp_prefix, C20_resp_too_many_iff for every limit N; partial parser: C20_partial (never fails on a prefix within the limit; reports only complete fields of the head, in order), C20_partial_complete. Request side: correspondence + oracle only (no theorem yet) — partial.",
+ "C20": "Response side: C20_resp_exact, C20_resp_prefix, C20_resp_too_many_iff for every limit N; partial parser: C20_partial (never fails on a prefix within the limit; reports only complete fields of the head, in order), C20_partial_complete. Request side (RHead grammar): C20_req_exact, C20_req_prefix, C20_req_too_many_iff from req_forward / req_prefix / req_too_many, for every limit N.",
 }
 checks = []
 for pid in sorted(claimed):
